@@ -398,3 +398,86 @@ def render_real(built, schema, items):
         else:
             res.append(None)
     return res
+
+
+# ------------------------------------------------------------------------------ large high-byte messages
+def _fill(kind, n, rng):
+    """n bytes of content: bytes >= 0x80 (what makes the byte lanes of calc_chksum carry) or ASCII control."""
+    if kind == "ff":
+        return b"\xff" * n
+    if kind == "rand":
+        return bytes(rng.randrange(0x80, 0x100) for _ in range(n))
+    if kind == "cyr":
+        s = ("Привет мир " * (n // 10 + 1)).encode("utf-8")
+        return s[:n].replace(b" ", b"\xd0") if n else b""
+    if kind == "cjk":
+        s = ("漢字仮名交じり文" * (n // 12 + 1)).encode("utf-8")
+        return s[:n]
+    return b"x" * n          # ascii control
+
+
+def highbyte_messages(meta, rng, sizes=(1100, 1600, 2400, 4000, 7900), kinds=("ff", "rand", "cyr", "cjk", "ascii"),
+                      max_types=6, max_val=1500):
+    """Messages whose encoded size is about `size` bytes, filled through their string fields (and, for
+    message types that have one, through the string fields of repeating-group elements) with bytes
+    >= 0x80.  Yields (class, mtype, hdr, body, trl).  Values stay below 2048 bytes (decodable)."""
+    def strings(owner):
+        return [t for t in meta.traits.get(owner, []) if t.ftype == FT_STRING and not t.group and (t.flags & 4)]
+    flat = MsgGen(meta, rng, p_opt=0.0, max_elems=0, no_pairs=True)
+    types = [mt for mt in sorted(meta.msgs) if len(strings(mt)) >= 2]
+    types.sort(key=lambda mt: -len(strings(mt)))
+    for mt in types[:max_types]:
+        ss = strings(mt)
+        for size in sizes:
+            for kind in kinds:
+                mt2, hdr, body, trl = flat.message(mt)
+                body = [f for f in body if f.fnum not in {t.fnum for t in ss} or meta.trait(mt, f.fnum).mandatory]
+                have = {f.fnum for f in body}
+                base = 40 + wire_estimate(hdr) + wire_estimate(body)
+                need = size - base
+                for t in ss:
+                    if need <= 8:
+                        break
+                    n = min(max_val, need - len(str(t.fnum)) - 2)
+                    if t.fnum in have:
+                        for f in body:
+                            if f.fnum == t.fnum:
+                                need += len(f.val)
+                                f.val = _fill(kind, n, rng)
+                    else:
+                        body.append(Fld(t.fnum, _fill(kind, n, rng)))
+                    need -= n + len(str(t.fnum)) + 2
+                if need > 200:
+                    continue          # this type cannot carry that much text
+                rng.shuffle(body)
+                yield "highbyte-%s-%d" % (kind, size), mt, hdr, body, []
+    # groups of text lines
+    k = 0
+    for mt in sorted(meta.msgs):
+        for gf, sub in sorted(meta.groups.get(mt, {}).items()):
+            ss = strings(sub)
+            first = meta.first_field(sub)
+            gt = meta.trait(mt, gf)
+            if not ss or first is None or gt is None or not (FT_INT <= meta.fields.get(gf, (0, ""))[0] <= FT_END_INT):
+                continue
+            st = ss[0]
+            for size in sizes[:4]:
+                for kind in kinds:
+                    mt2, hdr, body, trl = flat.message(mt)
+                    body = [f for f in body if f.fnum != gf]
+                    per = 400
+                    n = max(1, min(18, (size - 200) // (per + 12)))
+                    elems = []
+                    for _ in range(n):
+                        e = [Fld(st.fnum, _fill(kind, per, rng))]
+                        if first != st.fnum:
+                            e.insert(0, Fld(first, gen_value(rng, meta.trait(sub, first).ftype, first)))
+                        for t in meta.traits.get(sub, []):
+                            if t.mandatory and t.fnum not in (first, st.fnum) and not t.group:
+                                e.append(Fld(t.fnum, gen_value(rng, t.ftype, t.fnum)))
+                        elems.append(e)
+                    body.append(Fld(gf, str(n).encode(), elems))
+                    yield "highbyte-group-%s-%d" % (kind, size), mt, hdr, body, []
+            k += 1
+            if k >= 3:
+                return
